@@ -862,6 +862,8 @@ impl SmallAsnSet {
     #[verifier::external_body]
     pub fn difference<'a>(&'a self, other: &'a SmallAsnSet) -> (r: SmallSetUnion<'a>)
         ensures r.asns() == self.asns().difference(other.asns()),
+                forall|a: Asn| #![trigger self.asns().contains(a)]
+                    self.asns().contains(a) && !other.asns().contains(a) ==> r.asns().contains(a),
     { unimplemented!() }
 }
 #[verifier::external_body] pub struct SmallSetIter<'a> { _p: &'a SmallAsnSet }
@@ -994,3 +996,29 @@ impl PartialOrd for LevelFilter {
 // ---- crate::payload::PayloadSnapshot: the served data set. `built_under` is the ghost
 // record of the unsafe-VRP filter state (rejected resources, policy) it was built under.
 #[verifier::external_body] pub struct PayloadSnapshot { _opaque: () }
+
+// ---- the set-operation iterators of SmallAsnSet used as iterators (SmallSetUnion stands
+// for rpki's SmallSetUnion / SmallSetIntersection / SmallSetDifference /
+// SmallSetSymmetricDifference; view: the set of ASNs still to be yielded)
+impl<'a> SmallSetUnion<'a> {
+    // stands for Iterator::next: yields an element of the remaining set, None iff it is empty
+    #[verifier::external_body]
+    pub fn next(&mut self) -> (r: Option<Asn>)
+        ensures
+            r is None <==> (forall|a: Asn| !old(self).asns().contains(a)),
+            r matches Some(a) ==> old(self).asns().contains(a) && final(self).asns() == old(self).asns().remove(a),
+            r is None ==> final(self).asns() == old(self).asns(),
+            (r is None <==> old(self).count_spec() == 0),
+    { unimplemented!() }
+    // stands for Iterator::any / Iterator::all with a closure: nothing is claimed
+    #[verifier::external_body]
+    pub fn any<F: FnMut(Asn) -> bool>(&mut self, f: F) -> bool { unimplemented!() }
+    #[verifier::external_body]
+    pub fn all<F: FnMut(Asn) -> bool>(&mut self, f: F) -> bool { unimplemented!() }
+}
+impl SmallAsnSet {
+    #[verifier::external_body]
+    pub fn symmetric_difference<'a>(&'a self, other: &'a SmallAsnSet) -> (r: SmallSetUnion<'a>)
+        ensures r.asns() == self.asns().difference(other.asns()).union(other.asns().difference(self.asns())),
+    { unimplemented!() }
+}
